@@ -54,8 +54,8 @@ func execute(sc *Scenario, keepLog bool) (res *Result) {
 			runWrap(sc, res, keepLog)
 		case sc.Stream != nil:
 			runStream(sc, res, keepLog)
-		case sc.File != nil || sc.Ez != nil:
-			runFile(sc, res, keepLog)
+		case sc.Ez != nil:
+			runEz(sc, res, keepLog)
 		default:
 			runCore(sc, res, keepLog)
 		}
@@ -99,10 +99,21 @@ func runCore(sc *Scenario, res *Result, keepLog bool) {
 	s.Record = true
 	s.KeepLog = keepLog
 	s.Bias = sc.Bias
-	for k, v := range sc.Rates {
-		s.Faults[k] = v
-	}
 	r.never = make(chan struct{})
+	defer r.cleanupFile()
+	simrt.OnFileRead(func(rr simrt.ReadRecord) { r.reads = append(r.reads, rr) })
+	defer simrt.OnFileRead(nil)
+	if keepLog {
+		defer func() {
+			for _, rr := range r.reads {
+				s.Log = append(s.Log, fmt.Sprintf("READ step=%d err=%q data=%q", rr.Step, rr.Err, rr.Data))
+			}
+			for _, in := range r.installs {
+				s.Log = append(s.Log, fmt.Sprintf("INSTALL step=%d serial=%d stamps=%v", in.Step, in.Serial, in.Stamps))
+			}
+			res.Log = s.Log
+		}()
+	}
 	r.ctx, r.cancel = context.WithCancel(context.Background())
 	r.defaults = defaultsFrom(&sc.Defaults)
 	r.defFP = render(r.defaults)
@@ -118,6 +129,9 @@ func runCore(sc *Scenario, res *Result, keepLog bool) {
 		r.d, r.cfgErr = r.params().Config(r.ctx, r.defaults, sources...)
 	}()
 	r.oracleConfig()
+	for k, v := range sc.Rates {
+		s.Faults[k] = v // faults are armed only once Config has returned
+	}
 	if r.d != nil {
 		s.AfterStep = r.observe
 		r.observe()
@@ -167,5 +181,9 @@ func (r *Run) shutdown() {
 	r.cancel()
 	s.Run(20000, nil, time.Now().Add(settleHorizon))
 	r.crashOracle()
+	if r.file != nil {
+		r.releaseOracle()
+		return
+	}
 	r.leakOracle("after the Config context was cancelled")
 }
